@@ -109,7 +109,9 @@ func subsetsOf(n int) [][]int {
 	return out
 }
 
-func runC15(c c15Case) ev.Outcome {
+func runC15(c c15Case) (out ev.Outcome) {
+	var watch bigWatch
+	defer func() { watch.finish(&out, "VSS") }()
 	cv := getCurve(c.Curve)
 	ids := bigs(c.IDs)
 	secret := c.Secret.Big()
@@ -119,7 +121,7 @@ func runC15(c c15Case) ev.Outcome {
 			big256 = true
 		}
 	}
-	out := ev.Outcome{
+	out = ev.Outcome{
 		Label:      fmt.Sprintf("vss %s t=%d n=%d secret=%s ids=%s refuse=%s", c.Curve, c.T, c.N, c.SecretC, c.Pattern, c.Refuse),
 		Nontrivial: big256 || c.Refuse != "" || c.N > c.T+1,
 	}
@@ -130,6 +132,8 @@ func runC15(c c15Case) ev.Outcome {
 	var vs vss.Vs
 	var shares vss.Shares
 	var err error
+	watch.add("secret", secret)
+	watch.add("id", ids...)
 	if p := mustNoPanic(func() { vs, shares, err = vss.Create(cv.EC, c.T, secret, ids, rand.Reader) }); p != nil {
 		return fail("create-panic", "vss.Create panicked: %v", p)
 	}
@@ -214,6 +218,13 @@ func runC15(c c15Case) ev.Outcome {
 				subs = append(subs, s)
 			}
 		}
+	}
+	for _, sh := range shares {
+		watch.add("share", sh.Share)
+		watch.add("share-id", sh.ID)
+	}
+	for _, v := range vs {
+		watch.add("commitment", v.X(), v.Y())
 	}
 	want := new(big.Int).Mod(secret, cv.Q)
 	for _, s := range subs {
